@@ -72,7 +72,7 @@ func c10cases() []c10case {
 				}
 				// stray packets of the exchange repeated / out of order after the prefix
 				if g == 0 {
-					for _, extra := range []string{"WILLMSG(bye)", "WILLTOPIC(w/t,q1,r)", "AUTH(u1:p1)"} {
+					for _, extra := range []string{"WILLMSG(bye)", "WILLTOPIC(w/t,q1,r)", "AUTH(u1:p1)", "CONNECT(ka=0)", "CONNECT(proto=2)"} {
 						seq3 := append(append([]sym{}, seq...), symByName(extra))
 						out = append(out, c10case{auth: f.auth, seq: seq3, gaps: gaps, silent: true})
 					}
@@ -97,7 +97,7 @@ func TestC10(t *testing.T) {
 	runWorkloads(t, r, []Workload{wl}, func(g *GWRun) ([]monitors.V, int) {
 		return judgeC10(g.Items)
 	})
-	r.Finish(fmt.Sprintf("all %d cases: every prefix of the 5 connect flows {plain, will, auth, auth+will, auth+will(ka 65535, empty will message)} after which the client is silent, the complete flow with a broker that never answers, every assignment of gaps {0,1 s,4.9 s} between the client's steps, a repeated CONNECT (bound counts from the last one) and stray repeated exchange packets. Oracle in virtual time: if no broker CONNACK arrived, the handler returns no later than 5 s + 100 ms after the last CONNECT and the gateway has closed the broker connection by then. exhaustive for this stated space.", len(cases)), nil)
+	r.Finish(fmt.Sprintf("all %d cases: every prefix of the 5 connect flows {plain, will, auth, auth+will, auth+will(ka 65535, empty will message)} after which the client is silent, the complete flow with a broker that never answers, every assignment of gaps {0,1 s,4.9 s} between the client's steps, a repeated CONNECT (bound counts from the last one), a CONNECT the gateway refuses (keep-alive 0, protocol ID 2) in the middle of the exchange, and stray repeated exchange packets. Oracle in virtual time: if no broker CONNACK arrived, the handler returns no later than 5 s + 100 ms after the last CONNECT and the gateway has closed the broker connection by then. exhaustive for this stated space.", len(cases)), nil)
 }
 
 func judgeC10(items []monitors.Item) (vs []monitors.V, checked int) {
